@@ -32,6 +32,7 @@ def grids(tier):
                 if tier == 'quick' and (lo, span) not in ((0.0, 14.0), (1.0, 1.0), (2.5, 6.0), (0.0, 0.3), (1.0, 6.0)):
                     continue
                 out.append((lo, lo + span, st))
+    out += [(6.0, 8.0, 0.125), (6.5, 6.6, 0.005), (0.125, 2.125, 0.25)]      # finer than two decimals
     return out
 
 
@@ -76,7 +77,7 @@ def plan(tier, seed):
                 ('c08', dict(kind='model', layout=[(1, 'ASP'), (2, 'ASPnoCG'), (3, 'absent')])), ('kmodels', 'first-lacks-B')):
         shards.append(('real', list(inp), None, gs[::7]))
     return dict(shards=shards, exhaustive=True,
-                rule=('grids (min,max,step): min in {0,1,2.5} x span in {0.3,1,6,14} x step in {.05,.1,.25,.3,.5,.7,1,2} '
+                rule=('grids (min,max,step): min in {0,1,2.5} x span in {0.3,1,6,14} x step in {.05,.1,.25,.3,.5,.7,1,2} plus three grids finer than two decimals (steps 0.125, 0.005, offset 0.125) '
                       '(quick: 5 of the 12 (min,span) pairs); windows (w0, w0+6, w2) for w0 in {0,2,3}, w2 in {.5,1,2,3} plus '
                       'the default and 7 windows with decimal-fraction limits (0-0.3, 2-2.3, 2.6-3.1 ...); group multisets %s with pKa from a 4/8-value lattice; both reference states through '
                       'the API; -g/-w passed as options for the written file. real inputs with ions, multi-conformation layouts and custom model pKa, per conformation, incl. the tables of files written for a single conformation; a second query after API edits. non-trivial = distinct (multiset, '
@@ -194,6 +195,11 @@ def make_grid_cases():
     for lo in (0.0, 1.0, 2.5, -2.0):
         for n in (1, 2, 3, 7, 10, 14, 20, 28, 60, 140, 280):
             for st in (0.05, 0.1, 0.2, 0.25, 0.3, 0.5, 0.7, 1.0, 2.0):
+                out.append((lo, round(lo + n * st, 10), st))
+    # steps and minima finer than the two decimals the tables are printed with
+    for lo in (0.0, 0.125, 6.995, 2.0005):
+        for n in (1, 3, 8, 17, 40):
+            for st in (0.125, 0.0625, 0.005, 0.001, 0.0125):
                 out.append((lo, round(lo + n * st, 10), st))
     return out
 
